@@ -160,8 +160,11 @@ func (c *tracingHTTP2Conn) handleFrame(frame http2.Frame, isRequest bool) {
 			// request trailers
 			stream.builder.trace.Request.Trailer = makeHeaders(frame)
 		default:
-			// response trailers
-			stream.builder.trace.Response.Trailer = makeHeaders(frame)
+			// response trailers (there is no response in the trace if the
+			// request had no test name, in which case nothing is recorded)
+			if resp := stream.builder.trace.Response; resp != nil {
+				resp.Trailer = makeHeaders(frame)
+			}
 		}
 		if frame.StreamEnded() {
 			c.closeStreamLocked(frame.StreamID, stream, isRequest, nil)
